@@ -7,7 +7,7 @@ Sensitivity systems of pygom, mirrored line by line, as index arithmetic:
 * `sens_jacobian_state / eval_sens_jacobian_state`   (the dot - transpose - reshape)
 * `ode_and_sensitivity_jacobian`  (kron blocks, and the `arrangeVector` row selection of `by_state`)
 * `ode_and_sensitivityIV_jacobian`  (including the `nP == 0` branch)
-* `forwardforward / eval_forwardforward / ode_and_forwardforward`
+* `forwardforward / eval_forwardforward / ode_and_forwardforward`  (with the `grad_jacobian` / `grad_grad` terms)
 * `BaseLoss.sens_to_jtj`, and the assembly at the end of `BaseLoss.hessian`
 
 Vectors are functions `Nat → α`, matrices `Nat → Nat → α`; shapes are explicit arguments, exactly the
@@ -160,21 +160,65 @@ def odeAndSensitivityIVJacobian (nS nP : Nat) (J GJ DJ : Mat α) (z : Vec α) : 
 
 /-! ### second-order (forward-forward) sensitivities -/
 
-/-- `eval_forwardforward`: `kronParam(J).dot(FF) + kronState(S.T, pre=True).dot(diffJ).dot(S)` -/
-def evalForwardForward (nS nP : Nat) (J DJ FF S : Mat α) : Mat α :=
+/-- a 3-d numpy array -/
+abbrev Ten (α : Type) := Nat → Nat → Nat → α
+
+/-- `np.reshape(v, (_, d1, d2))` (C order) -/
+def reshape3C (d1 d2 : Nat) (v : Vec α) : Ten α := fun p q s => v ((p*d1 + q)*d2 + s)
+/-- `T.ravel()` of a 3-d array whose trailing dimensions are `d1, d2` -/
+def flatten3C (d1 d2 : Nat) (T : Ten α) : Vec α := fun m => T (m / (d1*d2)) (m / d2 % d1) (m % d2)
+/-- `T.transpose(1, 0, 2)` -/
+def transpose102 (T : Ten α) : Ten α := fun i k b => T k i b
+/-- `T.transpose(0, 2, 1)` -/
+def transpose021 (T : Ten α) : Ten α := fun i k b => T i b k
+def tenAdd (A B : Ten α) : Ten α := fun i k b => A i k b + B i k b
+
+/-- `eval_forwardforward` AS FOUND (before the `fix:` of finding C20-hessian-mixed-terms):
+`kronParam(J).dot(FF) + kronState(S.T, pre=True).dot(diffJ).dot(S)` and nothing else - the terms that come from the
+explicit dependence of `f` on the parameters were missing.  Kept for `Pygom.C20.ff_rhs_asFound_counterexample` and
+for the diagnostic classification of a regression (harness/props/c20.py). -/
+def evalForwardForwardAsFound (nS nP : Nat) (J DJ FF S : Mat α) : Mat α :=
   matAdd (matMul (nS*nP) (kronParam nP nS nS J false) FF)
          (matMul nS (matMul (nS*nS) (kronState nS nP nS (transpose S) true) DJ) S)
 
-/-- `forwardforward(ff, t, state, s)` -/
-def forwardForward (nS nP : Nat) (J DJ : Mat α) (ff s : Vec α) : Vec α :=
-  matToVecFF nP (evalForwardForward nS nP J DJ (vecToMatFF nP ff) (vecToMatSens nS s))
+/-- `eval_forwardforward`, line by line.  `GJ` is `grad_jacobian(state, t)` (shape `nP*nS × nS`, row `k*nS+i`,
+column `l` ↦ `∂/∂x_l ∂f_i/∂θ_k`), `GG` is `grad_grad(state, t)` (shape `nS*nP × nP`, row `i*nP+j`, column `k` ↦
+`∂²f_i/∂θ_j∂θ_k`):
+```
+outFF  = kronParam(J).dot(FF)
+outFF += kronState(A=S.T, pre=True).dot(diffJ).dot(S)
+GJS    = grad_jacobian(state, t).dot(S).reshape(nP, nS, nP)
+GJS    = GJS.transpose(1, 0, 2)
+outFF += (GJS + GJS.transpose(0, 2, 1)).reshape(nS*nP, nP)
+outFF += grad_grad(state, t)
+``` -/
+def evalForwardForward (nS nP : Nat) (J DJ GJ GG FF S : Mat α) : Mat α :=
+  let out0 := matMul (nS*nP) (kronParam nP nS nS J false) FF
+  let out1 := matAdd out0 (matMul nS (matMul (nS*nS) (kronState nS nP nS (transpose S) true) DJ) S)
+  let GJS0 := reshape3C nS nP (flattenC nP (matMul nS GJ S))          -- .dot(S).reshape(nP, nS, nP)
+  let GJS := transpose102 GJS0
+  let out2 := matAdd out1 (reshapeC nP (flatten3C nP nP (tenAdd GJS (transpose021 GJS))))
+  matAdd out2 GG
 
-/-- `ode_and_forwardforward(state_param, t)` -/
-def odeAndForwardForward (nS nP : Nat) (f : Vec α) (J G DJ : Mat α) (z : Vec α) : Vec α :=
+/-- `forwardforward(ff, t, state, s)` -/
+def forwardForward (nS nP : Nat) (J DJ GJ GG : Mat α) (ff s : Vec α) : Vec α :=
+  matToVecFF nP (evalForwardForward nS nP J DJ GJ GG (vecToMatFF nP ff) (vecToMatSens nS s))
+
+/-- `ode_and_forwardforward(state_param, t)`; `f, J, G, DJ, GJ, GG` are `ode, jacobian, grad, diff_jacobian,
+grad_jacobian, grad_grad` at the state `state_param[0:nS]` -/
+def odeAndForwardForward (nS nP : Nat) (f : Vec α) (J G DJ GJ GG : Mat α) (z : Vec α) : Vec α :=
   let sens := dropV nS z                      -- state_param[nS:nS*(nP+1)]
   let ff := dropV (nS*(nP+1)) z
   let out2 := sensitivity nS nP J G sens false
-  let out3 := forwardForward nS nP J DJ ff sens
+  let out3 := forwardForward nS nP J DJ GJ GG ff sens
+  fun r => if r < nS then f r else if r < nS + nS*nP then out2 (r - nS) else out3 (r - nS - nS*nP)
+
+/-- the same with the as-found second-order block (diagnostics only) -/
+def odeAndForwardForwardAsFound (nS nP : Nat) (f : Vec α) (J G DJ : Mat α) (z : Vec α) : Vec α :=
+  let sens := dropV nS z
+  let ff := dropV (nS*(nP+1)) z
+  let out2 := sensitivity nS nP J G sens false
+  let out3 := matToVecFF nP (evalForwardForwardAsFound nS nP J DJ (vecToMatFF nP ff) (vecToMatSens nS sens))
   fun r => if r < nS then f r else if r < nS + nS*nP then out2 (r - nS) else out3 (r - nS - nS*nP)
 
 /-! ### base_loss.py -/
@@ -192,24 +236,25 @@ def sensToJtj (n numS : Nat) (w sens : Mat α) : Mat α :=
 def scatter (idx : List Nat) (v : Vec α) : Vec α :=
   fun j => let q := idx.idxOf j; if q < idx.length then v q else 0
 
-/-- the vector `E` of `hessian`: `E = zeros(nS); E[stateIndex] += -diff_loss[i]` -/
-def hessE (stateIdx : List Nat) (dl : Vec α) : Vec α := scatter stateIdx (fun q => 0 + -(dl q))
+/-- the vector `E` of `hessian`: `E = zeros(nS); E[stateIndex] += diff_loss[i]*weight[i]`
+(since `fix:` 0f0d14a; `d2(cost) = sum dl*w*d2(yhat) + 2*w^2*s's`) -/
+def hessE (stateIdx : List Nat) (dl w : Vec α) : Vec α := scatter stateIdx (fun q => 0 + dl q * w q)
 
 /-- the accumulation `H += kron(E, eye(nP)).dot(FF_i)` over the `n` observation times; `FF i` is
-`vecToMatFF` of row `i` of the integrated forward-forward block, `dl i` row `i` of `diff_loss` -/
-def hessianH (nS nP n : Nat) (stateIdx : List Nat) (dl : Mat α) (FF : Nat → Mat α) : Mat α :=
-  fun a b => sumTo n (fun i => matMul (nS*nP) (kron nP nP (rowMat (hessE stateIdx (dl i))) eye) (FF i) a b)
+`vecToMatFF` of row `i` of the integrated forward-forward block, `dl i` row `i` of `diff_loss`, `w i` of `_weight` -/
+def hessianH (nS nP n : Nat) (stateIdx : List Nat) (dl w : Mat α) (FF : Nat → Mat α) : Mat α :=
+  fun a b => sumTo n (fun i => matMul (nS*nP) (kron nP nP (rowMat (hessE stateIdx (dl i) (w i))) eye) (FF i) a b)
 
 /-- `hessian`: `H[param_idx][:, param_idx] + 2*JTJ` -/
-def hessianCoded (nS nP n : Nat) (stateIdx paramIdx : List Nat) (dl : Mat α) (FF : Nat → Mat α) (JTJ : Mat α) : Mat α :=
-  fun a b => hessianH nS nP n stateIdx dl FF (paramIdx.getD a 0) (paramIdx.getD b 0) + (1 + 1) * JTJ a b
+def hessian (nS nP n : Nat) (stateIdx paramIdx : List Nat) (dl w : Mat α) (FF : Nat → Mat α) (JTJ : Mat α) : Mat α :=
+  fun a b => hessianH nS nP n stateIdx dl w FF (paramIdx.getD a 0) (paramIdx.getD b 0) + (1 + 1) * JTJ a b
 
-/-- the proposed repair of the sign / weight of the second-order term:
-`E[stateIndex] += diff_loss[i] * weight[i]` -/
-def hessERepaired (stateIdx : List Nat) (dl w : Vec α) : Vec α := scatter stateIdx (fun q => 0 + dl q * w q)
+/-- AS FOUND (before `fix:` 0f0d14a): `E[stateIndex] += -diff_loss[i]` - wrong sign, no weight.  Kept for
+`Pygom.C20.hessian_asFound_sign_counterexample` and for diagnostics. -/
+def hessEAsFound (stateIdx : List Nat) (dl : Vec α) : Vec α := scatter stateIdx (fun q => 0 + -(dl q))
 
-def hessianRepaired (nS nP n : Nat) (stateIdx paramIdx : List Nat) (dl w : Mat α) (FF : Nat → Mat α) (JTJ : Mat α) : Mat α :=
-  fun a b => sumTo n (fun i => matMul (nS*nP) (kron nP nP (rowMat (hessERepaired stateIdx (dl i) (w i))) eye) (FF i)
+def hessianAsFound (nS nP n : Nat) (stateIdx paramIdx : List Nat) (dl : Mat α) (FF : Nat → Mat α) (JTJ : Mat α) : Mat α :=
+  fun a b => sumTo n (fun i => matMul (nS*nP) (kron nP nP (rowMat (hessEAsFound stateIdx (dl i))) eye) (FF i)
       (paramIdx.getD a 0) (paramIdx.getD b 0)) + (1 + 1) * JTJ a b
 
 /-! ### lists (the driver's arrays) -/
